@@ -7,7 +7,8 @@ Driver entry points for C10 (tenant resolution).
   every step, the manager state, the resolution of every probe host, the TLS material per SNI, the verify
   options per host, and the judge evaluated on the model's own states.
 * `C10.judge` — evaluates the same judge (`KG.Spec.Names.invB/stepB/mirrorB/servedB`, `tlsSpec`, `verifySpec`)
-  on the states OBSERVED ON THE REAL CONTROLLER.
+  on the states OBSERVED ON THE REAL CONTROLLER, and `midB` on the key maps observed after EVERY manager write
+  the real handler performs (the states a concurrent reader can see during an event).
 * `C10.hwp`   — `HostWithoutPort` on a list of strings.
 
 `strings.ToLower`: ASCII lower-casing, overridden by the table `lower` (pairs computed by Go) for the
@@ -83,6 +84,16 @@ def encState (lower : Str → Str) (m : Mgr) : Json :=
                ("cert", encOptNat ci.cert), ("ca", encOptNat ci.ca)]).toArray),
     ("stopped", Json.arr ((List.range m.heap.length).filter (fun p => decide (p ∈ m.stopped)) |>.map J.nat).toArray)]
 
+def encKeys (m : Mgr) : Json :=
+  let keys := dedup (m.map.map (·.1)) []
+  Json.arr (keys.map fun k => Json.arr #[J.hex k, encOptNat (m.look k)]).toArray
+
+def decodeKeys (j : Json) : Except String (List (Str × Nat)) := do
+  (← j.getArr?).toList.mapM fun e => do
+    match (← e.getArr?).toList with
+    | [k, p] => pure ((← J.asHex k), (← p.getNat?))
+    | _ => throw "mid: key pair expected"
+
 def decodeState (j : Json) : Except String Mgr := do
   let keys ← (← J.getArr j "keys").toList.mapM fun e => do
     match (← e.getArr?).toList with
@@ -135,6 +146,9 @@ def doRun (a : Json) : Except String Json := do
         ("requeue", J.bool (out.map (·.requeue) |>.getD false)),
         ("admitted", J.bool admitted),
         ("state", encState lower m'),
+        ("mid", Json.arr ((match s with
+            | .sync n => syncTrace lower m n (w.lister.get n)
+            | _ => []).map encKeys).toArray),
         ("get", Json.arr (env.probes.map fun h => ptrOf (m'.get lower h)).toArray),
         ("req", Json.arr (env.probes.map fun h => ptrOf (resolve lower m' h)).toArray),
         ("tls", Json.arr (env.snis.map fun h => encTLS (wrapGetConfigForClient lower m' env.base h env.localAddr)).toArray),
@@ -161,6 +175,7 @@ def doJudge (a : Json) : Except String Json := do
     | [] => pure (J.obj [("fail", Json.str "")])
     | (s, o, st) :: rest => do
       let m' ← decodeState (← J.getObj o "state")
+      let mids ← (← J.getArr o "mid").toList.mapM decodeKeys
       let requeue ← J.getBool o "requeue"
       let tls ← (← J.getArr o "tls").toList.mapM decodeTLSArr
       let verify ← (← J.getArr o "verify").toList.mapM fun v => do
@@ -178,7 +193,8 @@ def doJudge (a : Json) : Except String Json := do
       let why := match s with
         | .sync n => stepWhy lower (lower n) (lister.get n) requeue m m'
         | _ => if unchangedB m m' then "" else "lister-write-changed"
-      if !invB lower m' then fail "inv"
+      if !(mids.all fun ks => midB m m' { heap := m'.heap, stopped := [], map := ks }) then fail "mid-event"
+      else if !invB lower m' then fail "inv"
       else if why ≠ "" then fail why
       else if req ≠ env.probes.map (fun h => (resolve lower m' h).map (·.1)) then fail "request-resolution"
       else if tls ≠ env.snis.map (fun h => tlsExpect lower m' env.base h env.localAddr) then fail "tls"
